@@ -41,6 +41,47 @@ class MethodMixin:
         def arg(k, want=None):
             return self.ex(args[k], want)
 
+        # ---- random number generator = list of recorded coin flips
+        if tag == 'rng':
+            if name == 'gen_bool' and pl is not None and len(args) == 1 and args[0].kind == 'Lit' and args[0].lit == 'float' \
+                    and args[0].val in ('0.5', '0.5_f64', '0.5f64'):
+                c, r = self.tmp('coin'), self.tmp('rng')
+                self.emit('let (%s, %s) := Rust.genBool %s' % (c, r, par(pl.get())))
+                pl._cache = None
+                pl.set(r)
+                return c, BOOL
+            self.fail('only `rng.gen_bool(0.5)` on a `&mut R` parameter is supported', e.line)
+        # ---- hash-ordered vector: may be measured or sorted, nothing else
+        if tag == 'uvec':
+            el = rty[1]
+            if name == 'len': return par(get()) + '.size', INT('usize')
+            if name == 'is_empty': return par(get()) + '.isEmpty', BOOL
+            if name == 'sort' and pl is not None and getattr(pl, 'var', None) is not None:
+                r = res(el)
+                if isinstance(r, TVar) or r[0] not in ('int', 'ptr', 'var'): self.fail('sort of a Vec of %r' % (r,), e.line)
+                pl.set('Rust.sortNat %s' % par(pl.get()))
+                pl.var.ty = ('vec', el)      # from here on the order is determined
+                return '()', UNIT
+            self.fail('`.%s()` on a vector in hash order (only len / is_empty / sort are order-independent)' % name, e.line)
+        if tag == 'uiter':
+            el = rty[1]
+            if name == 'map':
+                f, ft = self.fn_arg(args[0], [el], e.line)
+                return '%s.map %s' % (par(get()), par(f)), ('uiter', ft[2])
+            if name in ('cloned', 'copied'):
+                return get(), rty
+            if name == 'collect':
+                g = e.generics[0] if e.generics else None
+                r = res(el)
+                if g is not None and g.kind == 'TPath' and g.segs[-1][0] == 'HashMap' and not isinstance(r, TVar) and r[0] == 'tuple' and len(r[1]) == 2:
+                    return 'Rust.hashMapFromArr %s' % par(get()), ('map', r[1][0], r[1][1])
+                if g is not None and g.kind == 'TPath' and g.segs[-1][0] == 'HashSet':
+                    return 'Rust.hashSetFromArr %s' % par(get()), ('set', el)
+                if g is not None and g.kind == 'TPath' and g.segs[-1][0] == 'Vec':
+                    return get(), ('uvec', el)
+                self.fail('collect of a hash-ordered iterator needs an explicit `::<HashMap<_, _>>`, `::<HashSet<_>>` or `::<Vec<_>>`', e.line)
+            if name == 'count': return par(get()) + '.size', INT('usize')
+            self.fail('`.%s()` on an iterator in hash order' % name, e.line)
         # ---- Option
         if tag == 'opt':
             el = rty[1]
@@ -66,6 +107,24 @@ class MethodMixin:
                 f, ft = self.ex_Closure(c, ptys=[])
                 unify(ft[2], rty)
                 return '%s.orElse %s' % (par(get()), f), rty
+            if name == 'unwrap_or_else':
+                c = self.strip(args[0])
+                if c.kind != 'Closure' or c.params: self.fail('unwrap_or_else expects a `|| …` closure', e.line)
+                (bt, bty), lines, eff = self.capture(lambda: self.ex(c.body))
+                if not lines and not eff and bt is not None:
+                    return '(match %s with | some v__ => v__ | none => %s)' % (get(), bt), el
+                if self.pure: raise NotPure()
+                tmp = self.tmp('v')
+                self.eff += 1
+                self.emit('let %s ← match %s with' % (tmp, get()))
+                self.emit('  | some v__ => pure v__')
+                self.emit('  | none =>')
+                self.ind += 4
+                self.splice(lines)
+                if bt is not None:
+                    self.emit('pure %s' % par(bt))
+                self.ind -= 4
+                return tmp, el
             if name == 'or':
                 d, dt = arg(0, rty)
                 return '%s.orElse (fun _ => %s)' % (par(get()), d), rty
@@ -77,6 +136,22 @@ class MethodMixin:
         # ---- Vec / slice / materialised iterator
         if tag in ('vec', 'iter'):
             el = rty[1]
+            if name == 'zip':
+                o, ot = arg(0)
+                ot = res(ot)
+                if isinstance(ot, TVar) or ot[0] not in ('vec', 'iter'): self.fail('zip with %r' % (ot,), e.line)
+                return '%s.zip %s' % (par(get()), par(o)), ('iter', ('tuple', (el, ot[1])))
+            if name == 'collect':
+                g = e.generics[0] if e.generics else None
+                w = res(want) if want is not None else None
+                target = g.segs[-1][0] if (g is not None and g.kind == 'TPath') else (
+                    {'map': 'HashMap', 'set': 'HashSet'}.get(w[0]) if (w is not None and not isinstance(w, TVar)) else None)
+                r = res(el)
+                if target == 'HashMap':
+                    if isinstance(r, TVar) or r[0] != 'tuple' or len(r[1]) != 2: self.fail('collect into a HashMap needs pairs', e.line)
+                    return 'Rust.hashMapFromArr %s' % par(get()), ('map', r[1][0], r[1][1])
+                if target == 'HashSet':
+                    return 'Rust.hashSetFromArr %s' % par(get()), ('set', el)
             if name in ITER_IDENTITY:
                 if name == 'collect' and e.generics:
                     g = e.generics[0]
@@ -105,6 +180,10 @@ class MethodMixin:
                 if not isinstance(inner, TVar) and inner[0] == 'opt':
                     return '%s.filterMap id' % par(get()), ('iter', inner[1])
                 self.fail('flatten on an iterator of %r' % (inner,), e.line)
+            if name in ('all', 'any') and self.strip(args[0]).kind == 'Closure' and self.closure_has_effects(self.strip(args[0]), [el]):
+                return self.loop_all_any(name, get(), self.strip(args[0]), el, e.line)
+            if name == 'map' and self.strip(args[0]).kind == 'Closure' and self.closure_has_effects(self.strip(args[0]), [el]):
+                return self.loop_map(get(), self.strip(args[0]), el, e.line)
             if name in ('map', 'filter', 'filter_map', 'all', 'any'):
                 f, ft = self.fn_arg(args[0], [el], e.line)
                 r = res(ft[2])
@@ -144,6 +223,8 @@ class MethodMixin:
                 return '%s.contains %s' % (par(get()), par(k)), BOOL
             if name == 'len': return par(get()) + '.size', INT('usize')
             if name == 'is_empty': return par(get()) + '.isEmpty', BOOL
+            if name in ('iter', 'into_iter'):
+                return '%s.toArray' % par(get()), ('uiter', ('tuple', (K, V)))
             if name == 'insert' and pl is not None:
                 k, kt = arg(0, K); unify(kt, K)
                 v, vt = arg(1, V); unify(vt, V)
@@ -164,11 +245,53 @@ class MethodMixin:
                 return '%s.contains %s' % (par(get()), par(k)), BOOL
             if name == 'len': return par(get()) + '.size', INT('usize')
             if name == 'is_empty': return par(get()) + '.isEmpty', BOOL
+            if name in ('iter', 'into_iter'):
+                return '%s.toArray' % par(get()), ('uiter', K)
             if name == 'insert' and pl is not None:
                 k, kt = arg(0, K); unify(kt, K)
                 self.unit_only(e, 'HashSet::insert')
                 pl.set('%s.insert %s' % (par(pl.get()), par(k)))
                 return '()', UNIT
+        # ---- std::io through the scripted devices of Gen/RustShimIO.lean
+        if tag == 'reader' and name == 'read_exact' and pl is not None and len(args) == 1:
+            bp = self.try_place(args[0])
+            if bp is None: self.fail('read_exact needs a `&mut buf` place', e.line)
+            r, rd, bf = self.tmp('res'), self.tmp('rd'), self.tmp('buf')
+            self.emit('let (%s, %s, %s) := Rust.readExact %s %s' % (r, rd, bf, par(pl.get()), par(bp.get())))
+            pl._cache = None; bp._cache = None
+            pl.set(rd)
+            bp.set(bf)
+            return r, ('result', UNIT, ('ioerr',))
+        if tag == 'writer' and name == 'write_all' and pl is not None and len(args) == 1:
+            b, bt = arg(0)
+            r, w = self.tmp('res'), self.tmp('wr')
+            self.emit('let (%s, %s) := Rust.writeAll %s %s' % (r, w, par(pl.get()), par(b)))
+            pl._cache = None
+            pl.set(w)
+            return r, ('result', UNIT, ('ioerr',))
+        if tag == 'ioerr' and name == 'kind' and not args:
+            return par(get()) + '.kind', ('errkind',)
+        if tag == 'int' and name == 'to_le_bytes' and not args:
+            w = {'u8': 1, 'u16': 2, 'u32': 4, 'u64': 8, 'usize': 8}.get(rty[1])
+            if w is None: self.fail('to_le_bytes on an integer of unknown width', e.line)
+            return 'Rust.toLeBytes %d %s' % (w, par(get())), ('vec', INT('u8'))
+        # ---- `Ord::cmp`
+        if name == 'cmp' and len(args) == 1:
+            o, ot = arg(0, rty)
+            ot = res(ot)
+            if tag in ('int', 'big', 'ptr', 'var'):
+                return 'compare %s %s' % (par(get()), par(o)), ('ordering',)
+            if tag in ('vec', 'iter'):
+                el = res(rty[1])
+                if not isinstance(el, TVar) and el[0] == 'tuple' and len(el[1]) == 3 and all(res(x)[0] in ('int', 'ptr', 'var') for x in el[1]):
+                    return 'Rust.cmpArrNat3 %s %s' % (par(get()), par(o)), ('ordering',)
+            self.fail('`.cmp()` on type %r' % (deep(rty),), e.line)
+        # ---- hasher = list of writes
+        if name in ('write_usize', 'write_u8', 'write_u16', 'write_u32', 'write_u64') and tag == 'vec' and pl is not None:
+            w = {'write_usize': 8, 'write_u8': 1, 'write_u16': 2, 'write_u32': 4, 'write_u64': 8}[name]
+            x, _ = arg(0)
+            pl.set('%s.push (%d, %s)' % (par(pl.get()), w, x))
+            return '()', UNIT
         # ---- integers
         if tag == 'int':
             if name == 'checked_add':
@@ -178,9 +301,79 @@ class MethodMixin:
                 return 'Rust.checkedAdd%s %s %s' % (k.upper(), par(get()), par(b)), ('opt', INT(k))
         if tag == 'big' and name in ('clone',):
             return get(), rty
-        if tag == 'str' and name in ('to_string', 'to_owned', 'into'):
+        if tag == 'str' and name in ('to_string', 'to_owned', 'into', 'as_str', 'clone'):
             return get(), STR
         self.fail('method `.%s()` on a value of type %r is not supported' % (name, deep(rty)), e.line)
+
+    def closure_has_effects(self, c, ptys):
+        """does the body of closure c need statements / can it panic? (trial translation, output discarded)"""
+        self.push()
+        self.depth += 1
+        try:
+            for (p, ty), pt in zip(c.params, ptys):
+                self.pat(p, pt)
+            try:
+                (_, _), lines, eff = self.capture(lambda: self.ex(c.body))
+            except NotPure:
+                return True
+            return bool(lines) or eff
+        finally:
+            self.depth -= 1
+            self.pop()
+
+    def loop_all_any(self, name, recv, c, el, line):
+        """`iter.all(|x| body)` / `iter.any(..)` whose body can panic: an explicit short-circuiting loop"""
+        if self.pure: raise NotPure()
+        if len(c.params) != 1: self.fail('closure arity mismatch', line)
+        r = self.tmp(name)
+        self.emit('let mut %s := %s' % (r, 'true' if name == 'all' else 'false'))
+        base = self.ind
+        self.push()
+        self.loops.append({'flag': None, 'for': True})
+        try:
+            p = self.pat(c.params[0][0], el)
+            self.eff += 1
+            self.emit('for %s in %s do' % (p, recv))
+            self.ind = base + 2
+            t, ty = self.ex(c.body)
+            if name == 'all':
+                self.emit('if !%s then' % par(t))
+                self.emit('  %s := false' % r)
+            else:
+                self.emit('if %s then' % t)
+                self.emit('  %s := true' % r)
+            self.emit('  break')
+        finally:
+            self.loops.pop()
+            self.pop()
+            self.ind = base
+        return r, BOOL
+
+    def loop_map(self, recv, c, el, line):
+        """`iter.map(|x| body)` whose body can panic, on a materialised iterator: an explicit loop
+        (the iterator is consumed completely by every consumer the subset knows, so eager evaluation is faithful)"""
+        if self.pure: raise NotPure()
+        if len(c.params) != 1: self.fail('closure arity mismatch', line)
+        r = self.tmp('map')
+        self.emit('let mut %s := #[]' % r)
+        base = self.ind
+        rt = TVar()
+        self.push()
+        self.loops.append({'nobreak': True})
+        try:
+            p = self.pat(c.params[0][0], el)
+            self.eff += 1
+            self.emit('for %s in %s do' % (p, recv))
+            self.ind = base + 2
+            t, ty = self.ex(c.body)
+            unify(rt, ty)
+            if t is not None:
+                self.emit('%s := %s.push %s' % (r, r, par(t)))
+        finally:
+            self.loops.pop()
+            self.pop()
+            self.ind = base
+        return r, ('iter', rt)
 
     def unit_only(self, e, what):
         if not getattr(e, 'as_stmt', False):
